@@ -35,6 +35,28 @@ func Chance(s Src, label string, num, den int) bool {
 	return s.Int(label, 0, den-1) >= den-num
 }
 
+// recSrc records the choices another source makes, so that a generated case can
+// be re-generated from (and minimised over) its vector of draws.
+type recSrc struct {
+	inner Src
+	vals  []int
+}
+
+func (r *recSrc) Int(label string, lo, hi int) int {
+	v := r.inner.Int(label, lo, hi)
+	r.vals = append(r.vals, v)
+	return v
+}
+
+// generated builds a case through a recording source and remembers how to rebuild it.
+func generated(inner Src, gen func(Src) *Case) *Case {
+	rec := &recSrc{inner: inner}
+	cs := gen(rec)
+	cs.draws = rec.vals
+	cs.regen = gen
+	return cs
+}
+
 // fixedSrc replays a recorded list of choices (0 beyond the end / clamps).
 type fixedSrc struct {
 	vals []int
@@ -87,6 +109,10 @@ type Case struct {
 	FaultContext   string   `json:"fault_context,omitempty"`
 	RelaxedFault   string   `json:"relaxed_fault,omitempty"` // "eof" | "eio": env-injected fault, conditional oracle
 	MaskClockLines bool     `json:"mask_clock_lines,omitempty"`
+
+	// not serialised: how to rebuild this case from a vector of draws (minimisation)
+	draws []int
+	regen func(Src) *Case
 }
 
 // Aux carries the larger property-specific expectation payloads.
@@ -473,6 +499,7 @@ type Property struct {
 	Assumptions  []string
 	Components   map[string]string // real vs stub
 	ReachTargets []string          // counters that should be > 0 in the thorough tier
+	PrunableRuns bool              // Runs[1:] are independent schedules of one workload: minimisation may drop them
 }
 
 var properties = map[string]*Property{}
